@@ -175,6 +175,17 @@ class World:
             elif how == "argument-over-config":
                 # the configuration says writable, the documented constructor override says read-only
                 be = FilesystemStorageBackend(config=dict(cfg, readonly=False), read_only=True)
+            elif how == "repo-template":
+                # one repository file with a template parameter, loaded twice in this process: first the writer's view
+                # (readonly=false), then the reader's view the operations go through (readonly=true)
+                import json
+                from twosigma.memento import ConfigurationRepository
+                tpl = {"name": "rt", "clusters": {"c5": {"name": "c5", "storage": dict(cfg, type="filesystem", readonly="@RO@")}}}
+                path = self.root + "/repo-template.json"
+                with open(path, "w") as f:
+                    f.write(json.dumps(tpl).replace('"@RO@"', "{{ readonly }}"))
+                ConfigurationRepository.from_file(path, readonly="false")
+                be = ConfigurationRepository.from_file(path, readonly="true").clusters["c5"].storage
             elif how == "toggle":
                 be = FilesystemStorageBackend(**kw)
                 be.read_only = True
